@@ -2,6 +2,7 @@
 verification conditions.  The AST executed is the one parsed from /repo on this run.
 """
 import ast
+import re
 import itertools
 import z3
 from .values import *
@@ -1109,12 +1110,16 @@ class Engine:
                 if z3.simplify(a.arg(0)).eq(seq):
                     fl = ForallList._made[a.decl().name()]
                     s = s.assume(z3.Implies(a, fl.fn(R, *[a.arg(i) for i in range(1, a.num_args())])))
-        # [x for x in L if c(x)] with a side-effect free condition: the result is empty iff no element of L satisfies c, and every
-        # element of the result satisfies c (filter lemma: induction on L; c is read off the condition evaluated at an arbitrary element)
-        if len(desc.sources) == 1 and desc.sources[0][0] == 'list' and not desc.enumerate and isinstance(e.elt, ast.Name) and isinstance(g.target, ast.Name) \
-                and e.elt.id == g.target.id and len(g.ifs) == 1 and z3.is_expr(x):
+        # [elt for x in L if c(x)] with a side-effect free condition: the result is empty iff no element of L satisfies c (filter lemma:
+        # induction on L); when elt is x itself, every element of the result satisfies c.  Either the contract names the predicates
+        # (filter_specs: obligation "in every evaluation of the condition at an arbitrary element its truth value is P(x)") or c is read off the
+        # evaluated condition when that is a closed term of the element (no constants created by the evaluation).
+        if len(desc.sources) == 1 and desc.sources[0][0] == 'list' and not desc.enumerate and isinstance(g.target, ast.Name) and len(g.ifs) == 1 and z3.is_expr(x):
+            same_elt = isinstance(e.elt, ast.Name) and e.elt.id == g.target.id
             seq = z3.simplify(self.src_seq(desc.sources[0][0], desc.sources[0][1], st))
-            disj, pure = [], True
+            spec = (getattr(self.contract, 'filter_specs', None) or {}).get(self.comp_ordinal(e)) if self.contract else None
+            fresh_mark = next(VAL._fresh)
+            paths, pure = [], True
             for (s2, v) in self.ev(g.ifs[0], inner):
                 if isinstance(v, Raise):
                     pure = False; break
@@ -1122,12 +1127,31 @@ class Engine:
                     pure = False; break
                 if s2.heap != inner.heap and any(k_ not in inner.heap or not (inner.heap[k_] is v_ or (z3.is_expr(v_) and z3.is_expr(inner.heap[k_]) and v_.eq(inner.heap[k_]))) for k_, v_ in s2.heap.items()):
                     pure = False; break
-                extra = s2.conds[len(inner.conds):]
-                disj.append(z3.And(*extra, self.truthy(v, s2)))
-            if pure and disj:
+                paths.append((s2, self.truthy(v, s2)))
+            none_ = all_ = None
+            if pure and paths and spec is not None:
+                kept_fl, rej_fl, ps = spec[0], spec[1], list(spec[2](self))
+                for (s2, tv) in paths:
+                    self.oblige(s2, f"comp{self.comp_ordinal(e)}:filter:condition_is_the_kept_predicate", tv == kept_fl.pred(x, *ps))
+                self.oblige(inner, f"comp{self.comp_ordinal(e)}:filter:rejected_predicate_is_its_negation", rej_fl.pred(x, *ps) == z3.Not(kept_fl.pred(x, *ps)))
+                none_ = (lambda l_, f=rej_fl, ps=ps: f(l_, *ps))
+                all_ = (lambda l_, f=kept_fl, ps=ps: f(l_, *ps))
+            elif pure and paths:
                 xv = z3.Const(f"filt_x!{next(VAL._fresh)}", V)
-                cterm = z3.substitute(z3.simplify(z3.Or(*disj)), (z3.simplify(x), xv))
-                if k0.get_id() not in VAL._subterm_ids(cterm):
+                cterm = z3.substitute(z3.simplify(z3.Or(*[z3.And(*s2.conds[len(inner.conds):], tv) for (s2, tv) in paths])), (z3.simplify(x), xv))
+                closed = k0.get_id() not in VAL._subterm_ids(cterm)
+                stack, seen = [cterm], set()
+                while stack and closed:
+                    t_ = stack.pop()
+                    if t_.get_id() in seen:
+                        continue
+                    seen.add(t_.get_id())
+                    if z3.is_const(t_) and t_.decl().kind() == z3.Z3_OP_UNINTERPRETED and not t_.eq(xv):
+                        m_ = re.search(r'!(\d+)$', t_.decl().name())
+                        if m_ and int(m_.group(1)) >= fresh_mark:
+                            closed = False       # a constant created while evaluating the condition (e.g. a callee result): not a function of the element
+                    stack.extend(t_.children())
+                if closed:
                     nm = f"filter{next(VAL._fresh)}"
 
                     def existing(body):
@@ -1135,16 +1159,18 @@ class Engine:
                         probe = z3.Const('filt_probe', V)
                         want = z3.simplify(z3.substitute(body, (xv, probe)))
                         for fl in list(ForallList._made.values()):
-                            if not fl.param_sorts:
-                                try:
-                                    if z3.simplify(fl.pred(probe)).eq(want):
-                                        return fl
-                                except Exception:
-                                    pass
+                            try:
+                                if not fl.param_sorts and z3.simplify(fl.pred(probe)).eq(want):
+                                    return fl
+                            except Exception:
+                                pass
                         return None
                     none_ = existing(z3.Not(cterm)) or ForallList(nm + '_rejected', lambda y, c=cterm, xv=xv: z3.Not(z3.substitute(c, (xv, y))))
                     all_ = existing(cterm) or ForallList(nm + '_kept', lambda y, c=cterm, xv=xv: z3.substitute(c, (xv, y)))
-                    s = s.assume(VL.is_nil(R) == none_(seq), all_(R))
+            if none_ is not None:
+                s = s.assume(VL.is_nil(R) == none_(seq))
+                if same_elt:
+                    s = s.assume(all_(R))
         if hook is not None:
             s = hook(self, s, e, desc, R)
         s, r = self.new_ref(s, 'list', V.List(R))
